@@ -123,11 +123,11 @@ def run(ctx):
     # ---------------- generated sets
     sets = []
     hg = HG.HGen(ctx.rng)
-    for _ in range(ctx.size(250, 1500)):
+    for _ in range(ctx.size(180, 1200)):
         h = hg.hierarchy()
         sets.append(("inh", h, HG.sources(h)))
     ig = IG.IGen(ctx.rng, own_globals=0.1, shadow=0.05)
-    for _ in range(ctx.size(250, 1500)):
+    for _ in range(ctx.size(180, 1200)):
         ts = ig.tset()
         sets.append(("imp", ts, IG.sources(ts)))
     scratch_root = os.path.join(lib.BUILD, f"c31_scratch_{os.getpid()}")
@@ -151,22 +151,44 @@ def run(ctx):
                 if ModuleLoader.get_module_filename(n) != k + ".py":
                     ctx.model_mismatch("K-rt module file name", {"name": n}, k + ".py", ModuleLoader.get_module_filename(n),
                                        None)
-            ref = render(jinja2, kind, s, srcs, jinja2.DictLoader(srcs))
-            for mode in (None, "stored", "deflated"):
-                target = os.path.join(scratch_root, f"s{idx}_{mode or 'dir'}" + (".zip" if mode else ""))
+            # configuration axis (the compiling and the loading environment are configured alike), sampled
+            ek = HG.ENV_KINDS[(idx // 4) % len(HG.ENV_KINDS)] if idx % 4 == 2 else "plain"
+            mods = kind == "imp" and idx % 3 == 0
+            comp_env = (HG.make_env(jinja2, jinja2.DictLoader(srcs), ek) if kind == "inh"
+                        else IG.make_env(jinja2, s, srcs, kind=ek))
+            ref = render(jinja2, kind, s, srcs, jinja2.DictLoader(srcs), ek, mods)
+            ctx.count("env:" + ek)
+            for mode in (None, "stored", "deflated", "split"):
+                target = os.path.join(scratch_root, f"s{idx}_{mode or 'dir'}" + (".zip" if mode in ("stored", "deflated") else ""))
+                target2 = target + "_b.zip"
                 try:
                     try:
-                        src_env.compile_templates(target, zip=mode, log_function=lambda x: None, ignore_errors=False)
-                        got = render(jinja2, kind, s, srcs, ModuleLoader(target))
+                        if mode == "split":
+                            # the set divided over two archives (filter_func), one a folder and one a zip, found through
+                            # ONE ModuleLoader with several paths, in either order
+                            if idx % 2:
+                                continue
+                            names = sorted(srcs)
+                            first = set(names[::2])
+                            comp_env.compile_templates(target, zip=None, log_function=lambda x: None, ignore_errors=False,
+                                                       filter_func=lambda n: n in first)
+                            comp_env.compile_templates(target2, zip="deflated", log_function=lambda x: None,
+                                                       ignore_errors=False, filter_func=lambda n: n not in first)
+                            paths = [target, target2] if idx % 4 else [target2, target]
+                            got = render(jinja2, kind, s, srcs, ModuleLoader(paths), ek, mods)
+                        else:
+                            comp_env.compile_templates(target, zip=mode, log_function=lambda x: None, ignore_errors=False)
+                            got = render(jinja2, kind, s, srcs, ModuleLoader(target), ek, mods)
                     except Exception as e:  # noqa
                         got = "X:compile_templates/ModuleLoader:" + type(e).__name__ + ":" + str(e)[:80]
                 finally:
-                    if os.path.isdir(target):
-                        shutil.rmtree(target, ignore_errors=True)
-                    elif os.path.exists(target):
-                        os.unlink(target)
+                    for tg in (target, target2):
+                        if os.path.isdir(tg):
+                            shutil.rmtree(tg, ignore_errors=True)
+                        elif os.path.exists(tg):
+                            os.unlink(tg)
                 nontriv = len(srcs) >= 2 and ref.startswith("O ") and len(ref) > 6
-                case = {"kind": kind, "sources": srcs, "set": s, "zip": mode}
+                case = {"kind": kind, "sources": srcs, "set": s, "zip": mode, "env": ek, "modules": mods}
                 ctx.case(sample={"sources": srcs, "zip": mode, "render": ref} if nontriv else None,
                          key=(idx, mode) if nontriv else None)
                 ctx.count("zip:" + str(mode))
@@ -269,9 +291,22 @@ def same_source_case(jinja2, ModuleLoader, srcs, mode, target):
     try:
         ref = all_renders(rel_world(jinja2, jinja2.DictLoader(srcs)))
         try:
-            rel_world(jinja2, jinja2.DictLoader(srcs)).compile_templates(target, zip=mode, log_function=lambda x: None,
-                                                                         ignore_errors=False)
-            got = all_renders(rel_world(jinja2, ModuleLoader(target)))
+            if mode == "deflated":
+                # the `extensions` argument: html templates into one archive, everything else (filter_func) into a
+                # folder, both behind one ModuleLoader
+                rel_world(jinja2, jinja2.DictLoader(srcs)).compile_templates(target, zip=mode, log_function=lambda x: None,
+                                                                             ignore_errors=False, extensions=["html"])
+                rel_world(jinja2, jinja2.DictLoader(srcs)).compile_templates(
+                    target + "_rest", zip=None, log_function=lambda x: None, ignore_errors=False,
+                    filter_func=lambda n: not n.endswith(".html"))
+                try:
+                    got = all_renders(rel_world(jinja2, ModuleLoader([target, target + "_rest"])))
+                finally:
+                    shutil.rmtree(target + "_rest", ignore_errors=True)
+            else:
+                rel_world(jinja2, jinja2.DictLoader(srcs)).compile_templates(target, zip=mode, log_function=lambda x: None,
+                                                                             ignore_errors=False)
+                got = all_renders(rel_world(jinja2, ModuleLoader(target)))
         except Exception as e:  # noqa
             got = {"*": "X:compile_templates/ModuleLoader:" + type(e).__name__ + ":" + str(e)[:80]}
     finally:
@@ -467,11 +502,18 @@ def multi_env_stream(ctx, jinja2, ModuleLoader):
         shutil.rmtree(root, ignore_errors=True)
 
 
-def render(jinja2, kind, s, srcs, loader):
+def render(jinja2, kind, s, srcs, loader, env_kind="plain", modules=False):
     if kind == "inh":
-        env = jinja2.Environment(loader=loader)
+        env = HG.make_env(jinja2, loader, env_kind)
         return HG.real_render_src(jinja2, None, s["chain"][0], s["data"], HG.extends_data(s), env=env)[0]
-    return IG.real_render(jinja2, s, env=IG.make_env(jinja2, s, loader=loader))
+    r = IG.real_render(jinja2, s, env=IG.make_env(jinja2, s, loader=loader, kind=env_kind))
+    if modules and "async" not in env_kind:
+        # Template.module of every template of the set (exported names and values) belongs to "renders exactly like"
+        for n in s["templates"]:
+            if n == s["main"] and (s.get("objects") or s.get("lists")):
+                continue
+            r += " || " + n + ": " + IG.real_module(jinja2, s, n, env=IG.make_env(jinja2, s, loader=loader, kind=env_kind))
+    return r
 
 
 def replay(ctx, data):
@@ -526,12 +568,16 @@ def replay(ctx, data):
             with open(os.path.join(sdir, n), "w", encoding="utf-8", newline="") as f:
                 f.write(src)
         src_loader = jinja2.FileSystemLoader(sdir)
-    src_env = jinja2.Environment(loader=src_loader)
-    ref = render(jinja2, kind, s, srcs, src_loader)
+    src_env = (HG.make_env(jinja2, src_loader, case.get('env', 'plain')) if kind == 'inh'
+               else IG.make_env(jinja2, s, loader=src_loader, kind=case.get('env', 'plain')))
+    ek, mods = case.get("env", "plain"), case.get("modules", False)
+    if mode == "split":
+        print("replay: split archives are re-run as a plain folder"); mode = None
+    ref = render(jinja2, kind, s, srcs, src_loader, ek, mods)
     try:
         try:
             src_env.compile_templates(target, zip=mode, log_function=lambda x: None, ignore_errors=False)
-            got = render(jinja2, kind, s, srcs, ModuleLoader(target))
+            got = render(jinja2, kind, s, srcs, ModuleLoader(target), ek, mods)
         except Exception as e:  # noqa
             got = "X:compile_templates/ModuleLoader:" + type(e).__name__ + ":" + str(e)[:80]
     finally:
